@@ -244,8 +244,9 @@ func ruleAlphabet(r *Run, p *Prog) {
 	}
 	// tags emitted by the encoder (constant tag headers, as in A18)
 	emitted := map[int64]string{}
-	for _, f := range p.ModFns {
-		if pkgRel(f) != cborRel || f.Parent() != nil {
+	prefixFn := p.Func(cborRel, "appendCborTypePrefix")
+	for _, f := range p.RootViews([]string{cborRel}, "keep-prefix", func(g *ssa.Function) bool { return g == prefixFn }) {
+		if f.Parent() != nil {
 			continue
 		}
 		if !(isAppenderSig(f.Signature) || (f.Signature.Recv() != nil && isAppenderSigRecv(f.Signature))) {
@@ -350,8 +351,9 @@ func ruleWidth(r *Run, p *Prog) {
 		}
 		acc := false
 		eachInstr(f, func(b *ssa.BasicBlock, i int, in ssa.Instruction) {
-			if bo, ok := in.(*ssa.BinOp); ok && bo.Op == token.MUL {
-				if n, ok := constInt(bo.Y); ok && n == 256 && isIntLike(bo.Type()) {
+			if bo, ok := in.(*ssa.BinOp); ok && (bo.Op == token.MUL || bo.Op == token.SHL) {
+				// val*256 or val<<8
+				if n, ok := constInt(bo.Y); ok && (bo.Op == token.MUL && n == 256 || bo.Op == token.SHL && n == 8) && isIntLike(bo.Type()) {
 					if basic, ok := bo.Type().Underlying().(*types.Basic); ok && basic.Kind() != types.Uint32 {
 						acc = true
 					}
